@@ -287,9 +287,9 @@ Qed.
 Definition wf_payload (pl : payload) : Prop :=
   match pl with Raw b => wf_bytes b | FastPath _ b => wf_bytes b end.
 
-Lemma mcs_read_any_ok uid pl :
+Lemma mcs_read_any_ok uid io pl :
   wf_payload pl ->
-  match mcs_read_any uid pl with Ok pl' => wf_payload pl' | Err _ => True | _ => False end.
+  match mcs_read_any uid io pl with Ok pl' => wf_payload pl' | Err _ => True | _ => False end.
 Proof.
   intros Hwf. unfold mcs_read_any. destruct pl as [b|f b]; [|exact Hwf].
   destruct b as [|header r0]; auto.
@@ -298,13 +298,13 @@ Proof.
   assert (H : rest_ok r0
     (obind (per_read_integer_16 1001 r0) (fun x1 =>
      obind (per_read_integer_16 0 (snd x1)) (fun x2 =>
-       if negb ((fst x2 =? GLOBAL_CHANNEL) || (fst x2 =? uid)) then Err EUnknown
+       if negb ((fst x2 =? io) || (fst x2 =? uid)) then Err EUnknown
        else obind (per_read_u8 (snd x2)) (fun x3 =>
             obind (per_read_length (snd x3)) (fun x4 => Ok (Raw (snd x4)))))))
     (fun pl' => match pl' with Raw b => b | FastPath _ b => b end)).
   { eapply rest_ok_bind; [apply per_read_integer_16_ok|]. intros x1.
     eapply rest_ok_bind; [apply per_read_integer_16_ok|]. intros x2.
-    destruct (negb ((fst x2 =? GLOBAL_CHANNEL) || (fst x2 =? uid))); auto.
+    destruct (negb ((fst x2 =? io) || (fst x2 =? uid))); auto.
     eapply rest_ok_bind; [apply per_read_u8_ok|]. intros x3.
     eapply rest_ok_bind with (ra := snd); [apply per_read_length_ok|]. intros x4. cbn [rest_ok]. auto. }
   match goal with |- match ?o with _ => _ end => destruct o as [pl'| | |] end; cbn [rest_ok] in H; auto.
@@ -348,7 +348,7 @@ Proof.
 Qed.
 
 Definition netfs : list (string * msg) :=
-  [("MCSChannelId", MCheck (u16le 1003));
+  [("MCSChannelId", u16le 0);
    ("channelCount", MDyn (u16le 0) (CloSize "channelIdArray" (XMul XSelf 2)));
    ("channelIdArray", MArray [] (Some (u16le 0)))].
 
@@ -373,6 +373,10 @@ Proof.
       destruct (read_array_u16 _ _ _ _ _ _ _ _ (Forall_nil _) Hv3) as [l [-> Hl]].
       cbn [app]. eexists; eexists; split; [reflexivity|exact Hl]. }
   destruct Hv as [l [t [-> Hl]]]. cbn [trame_of].
+  apply obind_nocrash.
+  { unfold cast_num, nocrash. destruct (width_of v1) as [w'|]; [|split; discriminate].
+    destruct (num_of v1); [|split; discriminate]. destruct (w' =? 16); split; discriminate. }
+  intros io _.
   apply obind_nocrash; [apply channel_id_list_u16; exact Hl|]. intros ids _.
   destruct Hc as [Hcb Hcs].
   apply obind_nocrash; [apply cast_num_nocrash; [exact Hcb|rewrite (has_field_sig _ _ _ Hcs); reflexivity]|].
@@ -812,15 +816,15 @@ Proof.
   apply hoare_ret. exact I.
 Qed.
 
-Lemma sec_connect_ok c uid v5 : hoare (sec_connect p c uid v5) (fun _ => True).
+Lemma sec_connect_ok c uid io v5 : hoare (sec_connect p c uid io v5) (fun _ => True).
 Proof.
   unfold sec_connect.
   eapply hoare_bind; [apply hoare_emit|]. intros _ _.
   eapply hoare_bind; [apply hoare_recv_x224|]. intros pl Hpl.
-  pose proof (mcs_read_any_ok uid pl Hpl) as Hm.
+  pose proof (mcs_read_any_ok uid io pl Hpl) as Hm.
   eapply hoare_bind with (Q := wf_payload).
   { eapply hoare_weaken; [apply hoare_lift; apply pure_nocrash|].
-    - destruct (mcs_read_any uid pl); auto; contradiction.
+    - destruct (mcs_read_any uid io pl); auto; contradiction.
     - intros pl' Hx. cbn [fst] in Hx. rewrite Hx in Hm. exact Hm. }
   intros pl' Hpl'.
   eapply hoare_bind; [apply expect_raw_ok; exact Hpl'|]. intros b Hb.
